@@ -73,6 +73,13 @@ def prog_case(rng):
             ic = rand_cfg(rng, small=True)
             case["icache"] = {x: ic[x] for x in ("ib", "bb", "assoc", "policy", "pen")}
     case["blind"] = rng.random() < 0.5
+    if "dcache" not in case and "data" not in case and rng.random() < 0.12:
+        case["fullmem"] = True
+        # (prologue: stores and loads that straddle the top of the address space and continue at address 0)
+        pro = [{"m": "sw", "rs1": 0, "rs2": 5, "imm": -rng.choice([1, 2, 3])}, {"m": "sh", "rs1": 0, "rs2": 10, "imm": -1}, {"m": "lw", "rd": 3, "rs1": 0, "imm": -rng.choice([1, 2, 3])}, {"m": "lw", "rd": 2, "rs1": 0, "imm": 0}, {"m": "lhu", "rd": 1, "rs1": 0, "imm": -1}]
+        case["prog"] = pro[: rng.randint(2, 5)] + G.soup_program(rng, rng.randint(4, 24), aligned=False, mem_w=0.45)
+        case["regs"] = dict(G.soup_regs(rng), **{"31": rng.choice([0, 0xFFFFFFC0, 0xFFFFFFE1, 0x3FF0, 0x20])})
+        return case
     if "icache" not in case and rng.random() < 0.15:
         case["ibase"] = rng.choice([0x40, 0x100, 0x404, 0x1000, 0x2F00])
     return case
@@ -167,7 +174,16 @@ def run_case(prop, case, res):
     if case.get("blind"):
         res.count("prog_cases_memory_unobserved_while_running")
     ibase = case.get("ibase", 0)
-    if ibase:
+    if case.get("fullmem"):
+        # a caller-supplied data memory whose valid range is the whole 32-bit address space (wrapping): every data
+        # address is legal there, an access that runs past the top continues at address 0
+        from architecture_simulator.simulation.riscv_simulation import RiscvSimulation
+        from architecture_simulator.uarch.riscv.riscv_architectural_state import RiscvArchitecturalState
+        from architecture_simulator.uarch.memory.memory import Memory, AddressingType
+
+        sim = RiscvSimulation(state=RiscvArchitecturalState(memory=Memory(AddressingType.BYTE, 32, True)))
+        res.count("prog_cases_on_full_range_data_memory")
+    elif ibase:
         # instruction memory with another address range: program and start of execution move with it
         sim = make_riscv_at("single", ibase, dcache=case.get("dcache"))
         res.count("prog_cases_at_other_instruction_base")
@@ -209,7 +225,7 @@ def run_case(prop, case, res):
         max_steps = case.get("max_steps", 300)
     set_regs(sim, case["regs"])
     preload_mem(sim, case["mem"])
-    ref = SeqRef(prog, case["regs"], case["mem"], pc=addr)
+    ref = SeqRef(prog, case["regs"], case["mem"], pc=addr, data_min=0 if case.get("fullmem") else (1 << 14))
     ref.keep_trace = False
     nontrivial = False
     if bool(sim.is_done()) != bool(ref.done()):
